@@ -198,6 +198,13 @@ struct PrimRun {
         if (ob == bb && io == ib) return;
         env.lib_calls++;
         int flag = R.jv_prim(code, regs[ob][io].p, regs[ab][ia].p, regs[bb][ib].p);
+        // the result is a function of the operands alone: the same call into a second output object that held something else before must
+        // give the same bytes and flag (a path that forgets to store leaves whatever the destination - or the routine's dead stack - held)
+        if (!(ob == ab && io == ia) && flag != -77 && flag != -78) {
+            Buf o2(bank_bytes[ob], 0x5C); env.lib_calls++; int flag2 = R.jv_prim(code, o2.p, regs[ab][ia].p, regs[bb][ib].p);
+            if (flag2 != flag || memcmp(o2.p, regs[ob][io].p, bank_bytes[ob]) != 0)
+                env.fail(env.focus == "C20" ? "C20" : "C03", "result-depends-only-on-operands", strf("primitive %d gives %s into one output object and %s into another that held different bytes before the call (same operands)", code, regs[ob][io].hexs().c_str(), o2.hexs().c_str()));
+        }
         if (flag == -77) env.fail("C03", "arm-assembly-routine-fault", strf("primitive %d: %s", code, arm_last_fault().c_str()));
         if (flag == -78) env.fail("C03", "x86-assembly-routine-fault", strf("primitive %d: the routine returned with a callee-saved register (rbx, rbp, r12-r15) changed or with the direction flag set", code));
         env.logf("PRIM %d o%d.%zu a%d.%zu b%d.%zu al%d flag=%d out=%s", code, ob, io, ab, ia, bb, ib, io == ia && ob == ab, flag, regs[ob][io].hexs().c_str());
